@@ -186,11 +186,15 @@ def run(chk):
         if not ok:
             chk.fail("cdf()/pdf()/invcdf() without argument evaluate on a default grid", inp, "100 values", str(c0)[:80])
         # rnd: inverse transform of uniforms, reproducible
-        r1 = d.rnd(size=7, seed=12345)
-        r2 = d.rnd(size=7, seed=12345)
-        u = np.random.RandomState(12345).random_sample(7)
-        if not (np.array_equal(r1, r2) and np.allclose(r1, d.invcdf(p=u), rtol=1e-14)):
-            chk.fail("rnd(seed) == invcdf(uniforms of that seed), reproducible", inp, d.invcdf(p=u).tolist(), r1.tolist())
+        for sd in (12345, 0, rng.randint(1, 2 ** 31 - 1)):
+            np.random.seed(999)            # a different global state before each call: only the given seed may matter
+            r1 = d.rnd(size=7, seed=sd)
+            np.random.seed(777)
+            r2 = d.rnd(size=7, seed=sd)
+            u = np.random.RandomState(sd).random_sample(7)
+            if not (np.array_equal(r1, r2) and np.allclose(r1, d.invcdf(p=u), rtol=1e-14)):
+                chk.fail("rnd(seed) == invcdf(uniforms of that seed), reproducible", dict(inp, seed=sd), d.invcdf(p=u).tolist(), r1.tolist())
+                break
         # median / mode
         if kind != "wb":
             if not close(float(d.cdf(x=[d.median])[0]), 0.5, 1e-12):
